@@ -5,6 +5,7 @@ import TM.Stream
 import TM.Scrollback
 import TM.Mirror
 import TM.SpanLine
+import TM.Reader
 /-!
 # Driver — line-protocol executable running the model in lock-step with the harness.
 
@@ -117,7 +118,7 @@ def b01 (b : Bool) : String := if b then "1" else "0"
 /-- one row-level operation of the span buffer on a row sent by the harness; prints
     `runs cached shift startFill endFill A B idx off okBefore okAfter cells text` -/
 def slOp (cw : Nat → Nat) (op : String) (W : Nat) (cur : Style) (l : SLine) (x n : Nat) (ins : Span) (keep : Bool) : String :=
-  let okB := lineOK cw W l
+  let okB := lineWF cw W l
   let none' : Int := -1
   let (l', sh, sf, ef, a, b, idx, off, txt) : SLine × Nat × Nat × Nat × Int × Int × Nat × Nat × Bytes :=
     match op with
@@ -145,7 +146,7 @@ def slOp (cw : Nat → Nat) (op : String) (W : Nat) (cur : Style) (l : SLine) (x
       (⟨sp, w⟩, 0, 0, 0, none', none', 0, 0, [])
     | _ => (l, 0, 0, 0, none', none', 0, 0, [])
   let cells := lineCells cw l'
-  s!"{spansStr l'.spans} {l'.width} {sh} {sf} {ef} {a} {b} {idx} {off} {b01 okB} {b01 (lineOK cw W l')} {if cells.isEmpty then "-" else (rowStr cells).replace " " "_"} {hexOrDash txt}"
+  s!"{spansStr l'.spans} {l'.width} {sh} {sf} {ef} {a} {b} {idx} {off} {b01 okB} {b01 (lineWF cw W l')} {if cells.isEmpty then "-" else (rowStr cells).replace " " "_"} {hexOrDash txt}"
 
 def scrLine (tag : String) (s : Scr) (k : Kbd) : String :=
   s!"{tag} {s.w} {s.h} {s.cx} {s.cy} {s.sx} {s.sy} {s.top} {s.bot} {if s.wrap then 1 else 0} {styStr s.sty} {k.flags} {natsStr k.stack}"
@@ -175,6 +176,7 @@ structure DState where
   consumed : Nat := 0
   lastRows : Array String := #[]     -- last printed rows: main rows then alt rows
   rbuf : RBuf := RBuf.init
+  rdr : Rdr := Rdr.init []
   off : Nat := 0                     -- rows announced through ScrollLines since the last observation
 
 def rowsOf (t : Term) : Array String :=
@@ -371,6 +373,23 @@ partial def loop (wt : WidthTable) (h : IO.FS.Stream) (d : DState) : IO Unit := 
      | none => o.putStrLn "none")
     o.flush
     loop wt h d
+  | ["rdr", "init", script] =>
+    -- script: comma separated reads, `hex` or `-` (no data), with `!` appended when the read returns an error
+    let entries : List (Bytes × Bool) := if script = "none" then [] else (script.splitOn ",").map fun e =>
+      let fails := e.endsWith "!"
+      let hx := if fails then (e.dropEnd 1).toString else e
+      ((bytesOfHex hx).getD [], fails)
+    loop wt h { d with rdr := Rdr.init entries }
+  | ["rdr", "printable", maxW] =>
+    let (r, out) := d.rdr.readPrintable wt.lookup maxW.toNat!
+    let o ← IO.getStdout
+    o.putStrLn s!"{hexOrDash out.text} {out.width} {b01 out.err} {r.buf.start} {r.buf.stop} {r.buf.data.length}"; o.flush
+    loop wt h { d with rdr := r }
+  | ["rdr", "byte"] =>
+    let (r, b) := d.rdr.readByte
+    let o ← IO.getStdout
+    o.putStrLn s!"{match b with | some x => toString x.toNat | none => "-"} {r.buf.start} {r.buf.stop} {r.buf.data.length}"; o.flush
+    loop wt h { d with rdr := r }
   | ["ansi", fg, bg, ul] =>
     let st : Style := ⟨BitVec.ofNat 32 fg.toNat!, BitVec.ofNat 32 bg.toNat!, BitVec.ofNat 32 ul.toNat!⟩
     let o ← IO.getStdout
